@@ -879,6 +879,16 @@ def case_runlength(rng, ctx):
             ctx.fail("decoded_dtype", "%s decoded dtype %s, expected %s" % (what, dec.dtype.name, T))
         if not (isinstance(enc, np.ndarray) and enc.dtype == np.int32 and len(enc) % 2 == 0):
             ctx.fail("int_roundtrip_exact", "%s: encoded object is %s" % (what, _short(enc)))
+        # a decoder that was never used for encoding and was not told the source size (src_size is an optional parameter;
+        # an encoding description without it is read this way) decodes the same data
+        if n > 0:
+            fresh = mk(("RunLength", {"src_size": None, "src_type": type_param(rng, T)}))
+            ctx.op("decode:RunLength[fresh, no src_size]")
+            try:
+                dec2 = fresh.decode(np.asarray(enc))
+            except Exception as ex:
+                ctx.fail(oracle or "int_roundtrip_exact", "%s: a fresh RunLengthEncoding(src_type=%s) cannot decode the data: %s: %s" % (what, T, type(ex).__name__, ex))
+            judge_ints(ctx, oracle or "int_roundtrip_exact", dec2, x, what + " decoded by a fresh encoding object without src_size")
     settle(ctx, st, val, must, what, judge)
 
 
